@@ -9,6 +9,9 @@ def tasks(tier, seed):
 def extra(led, tier, seed):
     from contracts import tree_print
     led.extend(tree_print.rejection_table())
+    # the printed tree is compared with predict: predict itself must give integer-typed / float32 points the cluster of their float64 copy
+    from contracts import dtype_native
+    led.extend(dtype_native.predict_dtypes(seed, only=("Kauri",)))
     led.assume("A1 (trees with <= 3 (4 thorough) leaves, d = 3 features; thresholds and points symbolic)", "A2",
                "fitted Kauri models are represented by their tree_ (the C09 contracts tie tree_ to fit)",
                "the reference reader renders the property's 'read back' faithfully (A9)")
